@@ -181,6 +181,7 @@ func (e *s04Env) production(rules []*s04Rule) (map[string]*s04Matcher, bool) {
 		return map[string]*s04Matcher{}, true
 	}
 	return map[string]*s04Matcher{
+		"nodeall": {cat: "nodeall", router: r},
 		"sub":     {cat: "sub", sub: r.subMatcher},
 		"node":    {cat: "node", nd: r.nodeMatcher},
 		"subnode": {cat: "subnode", nd: r.subNodeMatcher},
@@ -283,10 +284,11 @@ func (e *s04Env) optimizers() []routing.RulesOptimizer {
 
 // one category of one normalised program, compiled by the real code.
 type s04Matcher struct {
-	cat string
-	sub *compiledMatcher[subscriptionMeta]
-	nd  *compiledMatcher[NodeMeta]
-	rq  *componentdns.RequestMatcher
+	router *Router // cat "nodeall": the exported MatchNodeUpstream (subnode rules first, then node rules)
+	cat    string
+	sub    *compiledMatcher[subscriptionMeta]
+	nd     *compiledMatcher[NodeMeta]
+	rq     *componentdns.RequestMatcher
 }
 
 func (e *s04Env) compileCat(cat string, prog *componentdns.NormalizedRequestRoutingProgram) (*s04Matcher, bool) {
@@ -324,6 +326,9 @@ func (m *s04Matcher) decide(e *s04Env, in *s04Input) string {
 			return e.upId(up, ok)
 		case "node", "subnode":
 			up, ok := m.nd.Match(NodeMeta{SubscriptionTag: in.tag, Name: in.name, Link: in.link})
+			return e.upId(up, ok)
+		case "nodeall":
+			up, ok := m.router.MatchNodeUpstream(NodeMeta{SubscriptionTag: in.tag, Name: in.name, Link: in.link})
 			return e.upId(up, ok)
 		default:
 			up, err := m.rq.Match(in.qname, in.qtype)
@@ -658,7 +663,7 @@ func (e *s04Env) runProgram(o *s04Out, r *VRand, tag string, rules []*s04Rule, n
 		inputs = append(inputs, s04GenInput(r))
 	}
 	changed := err == nil && errE == nil && opt != s04SerProg(E)
-	for _, cat := range []string{"sub", "node", "subnode", "dns"} {
+	for _, cat := range []string{"sub", "node", "subnode", "dns", "nodeall"} {
 		split := "err"
 		if perr == nil {
 			switch cat {
@@ -666,7 +671,7 @@ func (e *s04Env) runProgram(o *s04Out, r *VRand, tag string, rules []*s04Rule, n
 				split = fmt.Sprint(len(prog.SubscriptionRules))
 			case "node":
 				split = fmt.Sprint(len(prog.NodeRules))
-			case "subnode":
+			case "subnode", "nodeall":
 				split = fmt.Sprint(len(prog.SubNodeRules))
 			default:
 				split = fmt.Sprint(len(prog.Rules))
@@ -674,9 +679,15 @@ func (e *s04Env) runProgram(o *s04Out, r *VRand, tag string, rules []*s04Rule, n
 		} else {
 			st.Inc(cat + ".split_or_opt_error")
 		}
-		var mRaw *s04Matcher
+		var mRaw, mRaw2 *s04Matcher
 		if rerr == nil {
-			if mm, ok := e.compileCat(cat, progRaw); ok {
+			if cat == "nodeall" {
+				a, ok1 := e.compileCat("subnode", progRaw)
+				b, ok2 := e.compileCat("node", progRaw)
+				if ok1 && ok2 {
+					mRaw, mRaw2 = a, b
+				}
+			} else if mm, ok := e.compileCat(cat, progRaw); ok {
 				mRaw = mm
 			}
 		}
@@ -686,13 +697,17 @@ func (e *s04Env) runProgram(o *s04Out, r *VRand, tag string, rules []*s04Rule, n
 			fbTok = fmt.Sprintf("%d 0 0", consts.DnsRequestOutboundIndex_AsIs)
 			fbDec = fmt.Sprintf("%d.0.0", consts.DnsRequestOutboundIndex_AsIs)
 		}
-		if cat == "subnode" {
+		if cat == "subnode" || cat == "nodeall" {
 			gn = "GN 1 subnode"
 		}
-		op := fmt.Sprintf("P %s %s 0 G %d %s L %d %s FB %s A %d %s %s %s", backend, cat, len(geoToks), strings.Join(geoToks, " "),
+		mcat := cat
+		if cat == "nodeall" {
+			backend, mcat = "selnode", "node"
+		}
+		op := fmt.Sprintf("P %s %s 0 G %d %s L %d %s FB %s FBW asis 0 0 A %d %s %s %s", backend, mcat, len(geoToks), strings.Join(geoToks, " "),
 			len(labelToks), strings.Join(labelToks, " "), fbTok, len(atoms), strings.Join(atomToks, " "), gn, s04SerProg(rules))
 		op = strings.Join(strings.Fields(op), " ")
-		o.emit(op, "opt="+opt+" split="+split, s04Descr{Kind: "P", Backend: "daedns/" + cat, Tag: tag, Text: s04Text(rules), Fb: "(none)", Changed: changed})
+		o.emit(op, "opt="+opt+" split="+split+" fb="+fbDec, s04Descr{Kind: "P", Backend: "daedns/" + cat, Tag: tag, Text: s04Text(rules), Fb: "(none)", Changed: changed})
 		st.Inc(cat + ".programs")
 		if changed {
 			st.Inc(cat + ".programs_changed_by_normalisation")
@@ -725,7 +740,7 @@ func (e *s04Env) runProgram(o *s04Out, r *VRand, tag string, rules []*s04Rule, n
 				bs = "-"
 			}
 			gb := "-"
-			if cat == "subnode" {
+			if cat == "subnode" || cat == "nodeall" {
 				gb = "0"
 				if in.tag != "" {
 					gb = "1"
@@ -742,8 +757,25 @@ func (e *s04Env) runProgram(o *s04Out, r *VRand, tag string, rules []*s04Rule, n
 			raw := "err"
 			if mRaw != nil {
 				raw = mRaw.decide(e, in)
+				if cat == "nodeall" && (in.tag == "" || raw == fbDec) {
+					raw = mRaw2.decide(e, in)
+				}
 			}
 			spec := s04SpecCat(cat, E, truth, in.tag != "", e.ups, fbDec)
+			if cat == "nodeall" { // documented precedence on the written list: subnode rules first, then node rules
+				spec = fbDec
+				if in.tag != "" {
+					spec = s04SpecCat("subnode", E, truth, true, e.ups, fbDec)
+				}
+				if spec == fbDec {
+					spec = s04SpecCat("node", E, truth, in.tag != "", e.ups, fbDec)
+					if spec != fbDec && in.tag != "" {
+						st.Inc("nodeall.decision.node_rule_after_subnode_miss")
+					}
+				} else {
+					st.Inc("nodeall.decision.subnode_rule")
+				}
+			}
 			o.emit("q "+bs+" "+gb, "dec="+dec+" spec="+spec+" raw="+raw, s04Descr{Kind: "q", Pkt: in.String(cat)})
 			st.Inc(cat + ".evaluations")
 			if dec == fbDec {
